@@ -54,6 +54,7 @@ type c02wfModel struct {
 	Alts         []gcase.ResultJ `json:"alts"`         // results under every completion schedule (if complete)
 	AltsComplete bool            `json:"altsComplete"` // the exploration of all schedules finished within its budget
 	Possible     []gcase.TaskJ   `json:"possible"`     // failing cases: every (node, input) submitted under some schedule
+	WF           *bool           `json:"wf"`           // the model's compiled runner satisfies DagWF (hypothesis of workflow_at_most_once)
 }
 
 // set once a scripted completion order could not be followed (each such run costs a 15 s
@@ -332,8 +333,17 @@ func c02wfOne(ctx *vh.Ctx, c *c02wfCase, specs []c02wfRunSpec) error {
 	ctx.Res.Sample(&q)
 	var okScript *gcase.WOutcome
 	var okSpec c02wfRunSpec
+	wfHyp := model.WF != nil && *model.WF
+	ctx.Res.Dist(fmt.Sprintf("wf-hypothesis=%v", wfHyp))
 	for _, sp := range specs {
 		impl := c02wfCompare(ctx, c, model, sp)
+		if impl != nil && !wfHyp {
+			// eino compiled and ran it: the theorem's hypothesis must cover it
+			cc := *c
+			cc.Run = nil
+			ctx.Res.Disagree(vh.Disagreement{Signature: "C02:wf:wf-hypothesis", What: "eino compiled and ran this workflow, but the model's compiled runner does not satisfy DagWF — the hypothesis of workflow_at_most_once", Case: cc, Impl: impl})
+			break
+		}
 		ctx.Res.Dist("wf-run=" + sp.Mode)
 		// direct property predicate on the implementation alone: two successful runs under two
 		// enforced completion orders execute the same nodes on the same inputs, same result
